@@ -23,8 +23,15 @@ def handle (j : Json) : Except String Json := do
   let normalized ← jBool (← field j "normalized")
   let d ← jRat (← field j "d")
   let t ← jRat (fieldD j "t" (.str "0"))
+  let sample ← optJ Driver.H_c09.jRow (fieldD j "sample" .null)
   let r : Except Err (Content × List (String × Column)) ←
-    match ← jStr (← field j "what") with
+    match sample, ← jStr (← field j "what") with
+    | some row, "var" => pure ((mcVarSample c row toScan vars t normalized d).map fun tb => (c, tb))
+    | some row, "par" => pure ((mcParSample c row toScan vars t normalized d).map fun tb => (c, tb))
+    | some row, "resp" => do
+      let w := ssWorker (← Driver.H_c09.jCfg (← field j "cfg"))
+      pure (mcRespSample w c row toScan vars normalized d)
+    | _, what => match what with
     | "var" => pure ((varElasticities c toScan vars t normalized d).map fun tb => (c, tb))
     | "par" => pure (parElasticities c toScan vars t normalized d)
     | "resp" => do
